@@ -309,3 +309,10 @@ def apply_gauge(mp, word, k=None):
                 return mp.canonicalise(kk)
         return mp
     raise ValueError(word)
+
+
+def bond_dims_exact_of(mp):
+    """largest Schmidt rank possible at each bond (products of physical dimensions on either side; squared for operators)"""
+    dims = [int(np.prod(np.asarray(mp[i].array).shape[1:-1])) for i in range(len(mp))]
+    n = len(dims)
+    return [min(int(np.prod(dims[:i])), int(np.prod(dims[i:]))) for i in range(n + 1)]
